@@ -489,7 +489,28 @@ func (s *Server) getWorkspaceResolvedWithPath(docURI protocol.DocumentURI) (*inc
 			}
 		}
 	}
-	return s.GetResolved(docURI), uriToPath(docURI)
+	return s.withOpenBuffers(s.GetResolved(docURI), docURI), uriToPath(docURI)
+}
+
+// withOpenBuffers returns a copy of a per-document tree in which every file that is open in
+// the editor, docURI's own included, is parsed from its buffer: the tree of the last analysis
+// holds the other files as they were on disk, without their unsaved text.
+func (s *Server) withOpenBuffers(resolved *include.ResolvedJournal, docURI protocol.DocumentURI) *include.ResolvedJournal {
+	if resolved == nil {
+		return nil
+	}
+	current := *resolved
+	if doc, ok := s.GetDocument(docURI); ok {
+		current.Primary, _ = parser.Parse(doc)
+	}
+	current.Files = make(map[string]*ast.Journal, len(resolved.Files))
+	for path, journal := range resolved.Files {
+		if doc, ok := s.GetDocument(pathToURI(path)); ok {
+			journal, _ = parser.Parse(doc)
+		}
+		current.Files[path] = journal
+	}
+	return &current
 }
 
 func (s *Server) getWorkspaceResolved(docURI protocol.DocumentURI) *include.ResolvedJournal {
